@@ -35,7 +35,7 @@ def translate(tree):
     body = strip(f.body)
     # ---- validation: if len([s for s in [file, cmd, mod, eval_] if <test>]) != 1: parser.error(...)
     val = next((s for s in body if isinstance(s, ast.If) and isinstance(s.test, ast.Compare) and isinstance(s.test.left, ast.Call)
-                and isinstance(s.test.left.func, ast.Name) and s.test.left.func.id == "len"), None)
+                and isinstance(s.test.left.func, ast.Name) and s.test.left.func.id in ("len", "sum")), None)
     if val is None:
         raise Decline("validation of the sources")
     t = val.test
@@ -44,6 +44,13 @@ def translate(tree):
             and same(val.body[0].value.func, "parser.error") and not val.orelse):
         raise Decline("shape of the validation")
     comp = t.left.args[0]
+    if t.left.func.id == "sum":
+        # sum(<test on s> for s in [file, cmd, mod, eval_]): the number of sources for which the test holds
+        if not (isinstance(comp, ast.GeneratorExp) and len(comp.generators) == 1 and not comp.generators[0].ifs
+                and isinstance(comp.generators[0].target, ast.Name) and same(comp.generators[0].iter, "[file, cmd, mod, eval_]")):
+            raise Decline("sum over the sources")
+        comp = ast.ListComp(elt=ast.Name(id=comp.generators[0].target.id, ctx=ast.Load()),
+                            generators=[ast.comprehension(target=comp.generators[0].target, iter=comp.generators[0].iter, ifs=[comp.elt], is_async=0)])
     TRUTHY = "(fun gv : bool * bool => fst gv && snd gv)"    # truthy: given and not empty
     if isinstance(comp, ast.Call) and same(comp.func, "list") and len(comp.args) == 1 and isinstance(comp.args[0], ast.Call) \
             and same(comp.args[0].func, "filter") and len(comp.args[0].args) == 2 and same(comp.args[0].args[0], "None") \
